@@ -24,7 +24,7 @@ from rcc import harness as h
 odml = h.odml
 BaseSection, BaseDocument = h.BaseSection, h.BaseDocument
 
-WORK = os.path.join(h.WORK, 'c12')
+WORK = os.path.join(h.WORK, 'c12-%d' % os.getpid())     # per process: concurrent runs do not share files
 SEC_NAMES = ['a', 'ab', 'b', 'a b', 'abc', 'ba', 'bab']
 
 
